@@ -1,11 +1,17 @@
 import Pandora.Drv.Util
-import Pandora.Spec.C02
-import Pandora.Model.C02Conc
+import Pandora.Spec.C02Flat
+import Pandora.Model.C02Par
 
+/-!
+C02 driver.  For every case line: the MODEL's prediction of the observation (sequential: `seqRun` on the object
+`build` makes for the tree; controlled concurrency: `Par.run`/`stepFull` with the same order of callers) and the
+SPEC's verdict on what the real code did (`absRun`, or a replay of the global log against the atomic flat spec:
+exactly what `Reach` says; for free-running goroutines a linearizability check of every result).
+-/
 namespace Pandora.Drv.C02
 open Pandora.Drv Pandora.Model.C02 Pandora.Spec.C02
 
-/-! tree syntax:  F<dur>[o1,o2,…]{ctor}   U<dur>   C(t;t;…)   C()  -/
+/-! tree syntax:  F<dur>[o1,o2,…]{ctor}   U<dur>   C(t;t;…)   C()   I<from>:<to>:<step>:<dur>  -/
 
 def takeInt (cs : List Char) : Option (Int × List Char) :=
   let (neg, cs) := match cs with | '-' :: r => (true, r) | _ => (false, cs)
@@ -43,6 +49,12 @@ def parseTree : Nat → List Char → Option (Tree × List Char)
     | 'U' :: r => do
         let (dur, r) ← takeInt r
         pure (Tree.unl dur, skipBraces r)
+    | 'I' :: r => do
+        let (frm, r) ← takeInt r
+        let (to, r) ← takeInt (r.drop 1)
+        let (step, r) ← takeInt (r.drop 1)
+        let (dur, r) ← takeInt (r.drop 1)
+        pure (instanceStepTree frm.toNat to.toNat step.toNat dur, skipBraces r)
     | 'C' :: '(' :: r => do
         let (kids, r) ← parseKids fuel r []
         pure (Tree.comp kids, r)
@@ -58,197 +70,286 @@ def parseKids : Nat → List Char → List Tree → Option (List Tree × List Ch
       | none => none
 end
 
-def fmtT (now tx : Int) : String := if tx == now then "NOW" else toString tx
+def minute : Int := 3600000000000   -- (one hour: the window of clock readings)
 
-/-- run an op string ("S","N","L") sequence on the concrete model -/
-def runModel (d : Nat) (now : Int) : Lvl d → List String → List String → String
-  | _, [], acc => ";".intercalate acc.reverse
-  | s, op :: ops, acc =>
-    let o := lvlOps d
-    match op with
-    | "S" => match o.start s 0 with
-        | .ok s' => runModel d now s' ops ("S" :: acc)
-        | .error e => ";".intercalate (("P:" ++ e) :: acc).reverse
-    | "N" => match o.next s now with
-        | .ok (s', tx, ok) => runModel d now s' ops (s!"N:{fmtT now tx}:{if ok then 1 else 0}" :: acc)
-        | .error e => ";".intercalate (("P:" ++ e) :: acc).reverse
-    | "L" => match o.left s now with
-        | .ok (s', l) => runModel d now s' ops (s!"L:{l}" :: acc)
-        | .error e => ";".intercalate (("P:" ++ e) :: acc).reverse
-    | _ => "bad-op"
+/-- times inside [now0, now0 + 1 min) are clock readings of the run: printed as NOW on both sides -/
+def fmtT (now0 tx : Int) : String := if now0 ≤ tx && tx < now0 + minute then "NOW" else toString tx
 
-/-- the same ops on the abstract spec -/
-def runSpec (now : Int) : List Leaf → List String → List String → String
-  | _, [], acc => ";".intercalate acc.reverse
-  | ps, op :: ops, acc =>
-    match op with
-    | "S" => match specStart ps 0 with
-        | .ok ps' => runSpec now ps' ops ("S" :: acc)
-        | .error e => ";".intercalate (("P:" ++ e) :: acc).reverse
-    | "N" => match specNext ps now with
-        | .ok (ps', tx, ok) => runSpec now ps' ops (s!"N:{fmtT now tx}:{if ok then 1 else 0}" :: acc)
-        | .error e => ";".intercalate (("P:" ++ e) :: acc).reverse
-    | "L" => runSpec now ps ops (s!"L:{specLeft ps now}" :: acc)
-    | _ => "bad-op"
+def fmtObs (now0 : Int) : Obs → String
+  | .started => "S"
+  | .tok tx ok => s!"N:{fmtT now0 tx}:{if ok then 1 else 0}"
+  | .cnt n => s!"L:{n}"
+  | .err e => "P:" ++ e
+
+/-- op tokens S N L A<k> → calls with their clock readings (A advances the clock) -/
+def mkCalls (now0 : Int) : List String → Int → List (SOp × Int)
+  | [], _ => []
+  | op :: r, clk =>
+    if op == "S" then (.start 0, clk) :: mkCalls now0 r clk
+    else if op == "N" then (.next, clk) :: mkCalls now0 r clk
+    else if op == "L" then (.left, clk) :: mkCalls now0 r clk
+    else if op.startsWith "A" then mkCalls now0 r (clk + ((op.drop 1).toInt?.getD 0))
+    else mkCalls now0 r clk
+
+/-- interleave the "A" markers of the op list with the observations -/
+def render (now0 : Int) : List String → List Obs → List String
+  | [], _ => []
+  | op :: r, obs =>
+    if op.startsWith "A" then "A" :: render now0 r obs
+    else match obs with
+      | [] => []
+      | o :: os => fmtObs now0 o :: (match o with | .err _ => [] | _ => render now0 r os)
+
+def cbCount (obs : List Obs) : Nat := (obs.foldl (fun c o => c.after o) ({} : Cb)).calls
+
+def showRun (now0 : Int) (ops : List String) (obs : List Obs) (cb : Bool) : String :=
+  let base := ";".intercalate (render now0 ops obs)
+  if cb then base ++ s!";CB:{cbCount obs}" else base
+
+/-- numeric value of a printed time -/
+def timeOf (now0 : Int) (s : String) : Int := if s == "NOW" then now0 else s.toInt?.getD 0
+
+/-- times of the N results of one caller in an observation string list -/
+def nTimes (now0 : Int) (evs : List String) : List Int :=
+  evs.filterMap fun e => match e.splitOn ":" with
+    | ["N", tx, _] => some (timeOf now0 tx)
+    | _ => none
+
+def decreasing : List Int → Bool
+  | a :: b :: r => b < a || decreasing (b :: r)
+  | _ => false
 
 /-- first differing op between two ';' lists, as a failure key -/
 def firstDiff (a b : List String) (i : Nat := 0) : String :=
   match a, b with
   | [], [] => "none"
   | x :: xs, y :: ys => if x == y then firstDiff xs ys (i + 1) else
-      let kind := if y.startsWith "L" then "left" else if y.startsWith "P" || x.startsWith "P" then "panic" else "next"
+      let kind :=
+        if y.startsWith "CB" || x.startsWith "CB" then "onfinish"
+        else if y.startsWith "L" then "left"
+        else if y.startsWith "P" || x.startsWith "P" then "panic"
+        else match x.splitOn ":", y.splitOn ":" with
+          | ["N", _, okx], ["N", _, oky] => if okx != oky then "exactly-once" else if oky == "0" then "finish" else "next"
+          | _, _ => "next"
       s!"{kind}:op{i} impl={x} spec={y}"
   | x :: _, [] => s!"next:op{i} impl={x} spec=<none>"
   | [], y :: _ => s!"next:op{i} impl=<none> spec={y}"
 
 def handleSeq (kv : List (String × String)) (impl : String) : String × String :=
   let treeS := getS kv "tree"
-  let now := (getI? kv "now").getD 0
+  let now0 := (getI? kv "now").getD 0
   let ops := splitList (getS kv "ops")
+  let cb := getS kv "cb" == "1"
   match parseTree (treeS.length + 1) treeS.toList with
   | some (t, []) =>
     let d := t.depth
-    match build now d t with
+    let calls := mkCalls now0 ops now0
+    match build now0 d t with
     | .error e => ("P:" ++ e, if impl == "P:" ++ e then "ok" else s!"fail:panic:build impl={impl.take 60}")
     | .ok s =>
-      let m := runModel d now s ops []
-      let sp := runSpec now (flatten t) ops []
-      let verdict := if impl == sp then "ok" else s!"fail:{firstDiff (impl.splitOn ";") (sp.splitOn ";")}"
-      (m, verdict)
+      let m := showRun now0 ops (seqRun (lvlOps d) s calls) cb
+      let sp := showRun now0 ops (absRun (.unstarted (flat t)) calls) cb
+      let verdict :=
+        if impl == "INCONCLUSIVE" then "skip:inconclusive"
+        else if impl == sp then "ok"
+        else if decreasing (nTimes now0 (impl.splitOn ";")) && !decreasing (nTimes now0 (sp.splitOn ";")) then
+          s!"fail:order:times returned to the caller decrease; spec={sp.take 120}"
+        else s!"fail:{firstDiff (impl.splitOn ";") (sp.splitOn ";")}"
+      (if impl == "INCONCLUSIVE" then "-" else m, verdict)
   | _ => ("-", "fail:driver:unparsable tree")
 
-/-! ### mode=conc -/
-open Pandora.Model.C02.Conc in
-def fmtRet (now : Int) : Nat × Ret → String
-  | (i, .tok tx ok) => s!"{i}:N:{fmtT now tx}:{if ok then 1 else 0}"
-  | (i, .cnt n) => s!"{i}:L:{n}"
-  | (i, .panic m) => s!"{i}:P:{m}"
-  | (i, .parked) => s!"{i}:K"
+/-! ### mode=conc: controlled interleavings -/
+open Pandora.Model.C02.Par
 
-def treeLeaves : Tree → Option (List Leaf)
-  | .comp cs => cs.mapM fun
-      | .fin offs dur => some (Leaf.fin offs dur 0 none)
-      | .unl dur => some (Leaf.unl dur none)
-      | .comp _ => none
+def fmtEv (now0 : Int) : Nat × Int × Out → Option String
+  | (i, _, .ret (.tok tx ok)) => some s!"{i}:N:{fmtT now0 tx}:{if ok then 1 else 0}"
+  | (i, _, .ret (.cnt n)) => some s!"{i}:L:{n}"
+  | (i, _, .ret (.panic m)) => some s!"{i}:P:{m}"
+  | (i, _, .goto (.nextW _ _)) => some s!"{i}:K"
+  | (i, _, .goto (.leftW _)) => some s!"{i}:K"
   | _ => none
 
-/-- all finite tokens of the flat spec in order, and the finish time if the profile is finite -/
-def specDrain : Nat → List Leaf → Int → List Int → List Int × Option Int
-  | 0, _, _, acc => (acc.reverse, none)
-  | fuel + 1, ps, now, acc =>
-    match specNext ps now with
-    | .ok (ps', tx, true) => if tx == now then (acc.reverse, none) else specDrain fuel ps' now (tx :: acc)
-    | .ok (_, tx, false) => (acc.reverse, some tx)
-    | .error _ => (acc.reverse, none)
+/-- the composite node at the top of a tree, with its level -/
+def buildTop (now0 : Int) (t : Tree) : Option (Σ d : Nat, Comp (Lvl d)) :=
+  match t.depth with
+  | 0 => none
+  | d + 1 =>
+    match build now0 (d + 1) t with
+    | .ok (.inr c) => some ⟨d, c⟩
+    | _ => none
 
-def insertSorted (x : Int) : List Int → List Int
-  | [] => [x]
-  | y :: ys => if x ≤ y then x :: y :: ys else y :: insertSorted x ys
-def sortInts (l : List Int) : List Int := l.foldr insertSorted []
+def hasPanic {σ : Type} (st : St σ) : Bool :=
+  st.log.any fun e => match e.2.2 with | .ret (.panic _) => true | _ => false
+
+/-- after the given order let every caller finish, lowest id first -/
+def drainAll {σ : Type} (ops : Ops σ) (now : Int) : Nat → St σ → St σ
+  | 0, st => st
+  | fuel + 1, st =>
+    if hasPanic st then st else
+    match st.thr.findIdx? (fun t => !t.todo.isEmpty) with
+    | none => st
+    | some i => drainAll ops now fuel (stepFull ops now 64 st i)
+
+def runOrder {σ : Type} (ops : Ops σ) (now : Int) (st : St σ) (sched : List Nat) : St σ :=
+  sched.foldl (fun st i => if hasPanic st then st else stepFull ops now 64 st i) st
 
 structure Ev where
   tid : Nat
   kind : String     -- N L P K
-  tx : Option Int   -- none = NOW
+  tx : String       -- printed time
   ok : Bool
   n : Int
 
 def parseEv (s : String) : Option Ev :=
   match s.splitOn ":" with
-  | [t, "K"] => do pure ⟨← t.toNat?, "K", none, false, 0⟩
-  | [t, "N", tx, ok] => do pure ⟨← t.toNat?, "N", if tx == "NOW" then none else tx.toInt?, ok == "1", 0⟩
-  | [t, "L", n] => do pure ⟨← t.toNat?, "L", none, false, ← n.toInt?⟩
-  | t :: "P" :: _ => do pure ⟨← t.toNat?, "P", none, false, 0⟩
+  | [t, "K"] => do pure ⟨← t.toNat?, "K", "", false, 0⟩
+  | [t, "N", tx, ok] => do pure ⟨← t.toNat?, "N", tx, ok == "1", 0⟩
+  | [t, "L", n] => do pure ⟨← t.toNat?, "L", "", false, ← n.toInt?⟩
+  | t :: "P" :: _ => do pure ⟨← t.toNat?, "P", "", false, 0⟩
   | _ => none
 
-/-- Spec verdict on a global event log of a concurrent run (all callers ran to completion). -/
-def judgeConc (flat : List Leaf) (now : Int) (nCalls : Nat) (evs : List Ev) : String :=
-  let started := match specStart flat 0 with | .ok p => p | .error _ => flat
-  let (E, fin) := specDrain (nCalls + 10000) started now []
-  let oks := evs.filter (fun e => e.kind == "N" && e.ok)
-  let finiteOks := oks.filterMap (·.tx)
-  if evs.any (·.kind == "P") then "fail:panic:a call panicked"
-  else if sortInts finiteOks != (sortInts E).take finiteOks.length then
-    s!"fail:exactly-once:handed out {sortInts finiteOks} expected prefix of {E}"
-  else if fin.isSome && oks.length != min nCalls E.length then
-    s!"fail:exactly-once:{oks.length} tokens handed out by {nCalls} Next calls, profile has {E.length}"
-  else if fin.isNone && finiteOks.length < min nCalls E.length then
-    s!"fail:exactly-once:{finiteOks.length} finite tokens handed out, expected {min nCalls E.length}"
-  else
-    -- per caller: times never decrease
-    let tids := (evs.map (·.tid)).eraseDups
-    let badMono := tids.any fun t =>
-      let ts := (evs.filter (fun e => e.tid == t && e.kind == "N")).map (fun e => e.tx.getD now)
-      (ts.zip ts.tail).any (fun (a, b) => b < a)
-    if badMono then "fail:order:times returned to one caller decrease"
-    else
-      -- exhausted: every !ok carries the finish time
-      let badFin := match fin with
-        | some f => evs.any (fun e => e.kind == "N" && !e.ok && e.tx != some f)
-        | none => false
-      if badFin then s!"fail:finish:a finished Next returned a time other than {fin}"
-      else
-        -- Left: exact for some state between call and return
-        -- spec states after k finite draws, k = 0 … |E|
-        let states : List (List Leaf) := (List.range (E.length + 1)).map fun k =>
-          (List.range k).foldl (fun ps _ => match specNext ps now with | .ok (ps', _, _) => ps' | .error _ => ps) started
-        let rec go (es : List Ev) (drawn : Nat) (callStart : List (Nat × Nat)) : Option String :=
-          match es with
-          | [] => none
-          | e :: rest =>
-            let atCall := ((callStart.find? (·.1 == e.tid)).map (·.2)).getD drawn
-            match e.kind with
-            | "K" => go rest drawn (if callStart.any (·.1 == e.tid) then callStart else (e.tid, drawn) :: callStart)
-            | "N" => go rest (if e.ok && e.tx.isSome then drawn + 1 else drawn) (callStart.filter (·.1 != e.tid))
-            | "L" =>
-              let cs' := callStart.filter (·.1 != e.tid)
-              -- acceptable iff it is the spec's value in some state between the call and the return
-              let okL := (List.range (drawn - atCall + 1)).any fun j =>
-                match states[atCall + j]? with
-                | some ps => specLeft ps now == e.n
-                | none => false
-              if okL then go rest drawn cs'
-              else some s!"fail:left:Left={e.n} is not the exact count (or -1 for unknown) of any state between call ({atCall} drawn) and return ({drawn} drawn)"
-            | _ => go rest drawn callStart
-        match go evs 0 [] with
-        | some f => f
-        | none => "ok"
+def autostart (now : Int) : Abs → Option Abs
+  | .unstarted parts => some (.running (inst parts now))
+  | .running _ => none
 
-open Pandora.Model.C02.Conc in
+/-- replay of a global log against the ATOMIC flat spec (`Reach`): the set of abstract states the log may have led to -/
+def replay (now0 : Int) : List Ev → List Abs → Nat → Except String (List Abs)
+  | [], cands, _ => .ok cands
+  | e :: rest, cands, idx =>
+    let next : Except String (List Abs) :=
+      match e.kind with
+      | "K" => .ok (cands ++ cands.filterMap (autostart now0))
+      | "N" =>
+        let c' := cands.filterMap fun A =>
+          let x := absNext A now0
+          if fmtT now0 x.2.1 == e.tx && x.2.2 == e.ok then some x.1 else none
+        if c'.isEmpty then
+          let exp := match cands with | A :: _ => fmtObs now0 (.tok (absNext A now0).2.1 (absNext A now0).2.2) | [] => "?"
+          let key := match cands with
+            | A :: _ => if (absNext A now0).2.2 != e.ok then "exactly-once" else if !e.ok then "finish" else "next"
+            | [] => "next"
+          .error s!"{key}:event {idx} caller {e.tid} Next={e.tx}:{if e.ok then 1 else 0} but the atomic spec gives {exp}"
+        else .ok c'
+      | "L" =>
+        let c' := cands.filter fun A => absLeft A now0 == e.n
+        if c'.isEmpty then
+          let exp := match cands with | A :: _ => toString (absLeft A now0) | [] => "?"
+          .error s!"left:event {idx} caller {e.tid} Left={e.n} but the atomic spec gives {exp}"
+        else .ok c'
+      | _ => .error s!"panic:event {idx} caller {e.tid} panicked"
+    match next with
+    | .error m => .error m
+    | .ok c' => replay now0 rest c' (idx + 1)
+
+def progsOf (s : String) : List (List Op) :=
+  (splitList s "|").map fun p =>
+    p.toList.filterMap fun c => if c == 'N' then some Op.next else if c == 'L' then some Op.left else none
+
+def judgeLog (now0 : Int) (A0 : Abs) (impl : String) : String :=
+  match (splitList impl ";").mapM parseEv with
+  | none => s!"fail:crash:unparsable log {impl.take 80}"
+  | some evs =>
+    match replay now0 evs [A0] 0 with
+    | .error m => "fail:" ++ m
+    | .ok _ =>
+      let tids := (evs.map (·.tid)).eraseDups
+      let bad := tids.any fun t =>
+        decreasing ((evs.filter (fun e => e.tid == t && e.kind == "N")).map (fun e => timeOf now0 e.tx))
+      if bad then "fail:order:times returned to one caller decrease" else "ok"
+
 def handleConc (kv : List (String × String)) (impl : String) : String × String :=
   let treeS := getS kv "tree"
-  let now := (getI? kv "now").getD 0
-  let progs : List (List Op) := (splitList (getS kv "prog") "|").map fun p =>
-    p.toList.filterMap fun c => if c == 'N' then some Op.next else if c == 'L' then some Op.left else none
+  let now0 := (getI? kv "now").getD 0
+  let started := getS kv "start" "1" != "0"
+  let progs := progsOf (getS kv "prog")
   match parseTree (treeS.length + 1) treeS.toList, parseNats (getS kv "sched") with
   | some (t, []), some sched =>
-    match treeLeaves t with
-    | some leaves =>
-      match newComposite leafOps now leaves with
-      | .ok (.inr c) =>
-        match compStart leafOps c 0 with
-        | .ok c =>
-          let st : St := { cs := c.cs, la := c.la, started := c.started,
-                           thr := progs.map (fun p => { todo := p }), log := [] }
-          let st := run now st sched
-          let nOps := progs.foldl (fun a p => a + p.length) 0
-          let st := drain now (2 * nOps + 2 * leaves.length * progs.length + 10) st
-          let m := ";".intercalate (st.log.reverse.map (fmtRet now))
-          let nCalls := progs.foldl (fun a p => a + (p.filter (· == Op.next)).length) 0
-          let verdict := match (splitList impl ";").mapM parseEv with
-            | some evs => judgeConc (flatten t) now nCalls evs
-            | none => s!"fail:crash:unparsable log {impl.take 60}"
-          (m, verdict)
-        | .error e => ("P:" ++ e, "fail:panic:start")
-      | _ => ("-", "skip:not-a-composite")
-    | none => ("-", "skip:nested")
+    match buildTop now0 t with
+    | none => ("-", "skip:not-a-composite")
+    | some ⟨d, c⟩ =>
+      let c1 : Except String (Comp (Lvl d)) := if started then compStart (lvlOps d) c 0 else .ok c
+      match c1 with
+      | .error e => ("P:" ++ e, "fail:panic:start")
+      | .ok c1 =>
+        let st : St (Lvl d) := ⟨⟨c1.cs, c1.la, c1.started⟩, progs.map (fun p => { todo := p }), []⟩
+        let st := runOrder (lvlOps d) now0 st sched
+        let nOps := progs.foldl (fun a p => a + p.length) 0
+        let st := drainAll (lvlOps d) now0 (4 * nOps + 16) st
+        let m := ";".intercalate (st.log.reverse.filterMap (fmtEv now0))
+        let A0 : Abs := if started then .running (inst (flat t) 0) else .unstarted (flat t)
+        (m, judgeLog now0 A0 impl)
   | _, _ => ("-", "fail:driver:unparsable conc input")
+
+/-! ### mode=stress: free-running goroutines; every result must be explained by the atomic flat spec
+
+observation: `<caller>|<caller>|…`, a caller = `N:tx:ok` and `L:n@a-b` results in its own order, where for a `Left`
+call `a` = number of `Next` calls that had returned before it began and `b` = number of `Next` calls that had begun
+when it returned.  With a constant clock the results of the first j `Next` calls of the flat spec do not depend on
+who makes them, so: the multiset of all `Next` results must be that of the first n spec results, each caller's times
+must not decrease, and each `Left` value must be the spec's value after j draws for some a ≤ j ≤ b. -/
+
+def insertSortedS (x : String) : List String → List String
+  | [] => [x]
+  | y :: ys => if x ≤ y then x :: y :: ys else y :: insertSortedS x ys
+def sortStrs (l : List String) : List String := l.foldr insertSortedS []
+
+/-- spec states after 0, 1, …, n draws and the printed results of the draws -/
+def specStates (now0 : Int) : Nat → Abs → List Abs × List String
+  | 0, A => ([A], [])
+  | n + 1, A =>
+    let x := absNext A now0
+    let r := specStates now0 n x.1
+    (A :: r.1, s!"N:{fmtT now0 x.2.1}:{if x.2.2 then 1 else 0}" :: r.2)
+
+def parseAB (s : String) : Option (Int × Nat × Nat) :=
+  match s.splitOn "@" with
+  | [n, ab] => match ab.splitOn "-" with
+    | [a, b] => do pure (← n.toInt?, ← a.toNat?, ← b.toNat?)
+    | _ => none
+  | _ => none
+
+def handleStress (kv : List (String × String)) (impl : String) : String × String :=
+  let treeS := getS kv "tree"
+  let now0 := (getI? kv "now").getD 0
+  let started := getS kv "start" "1" != "0"
+  match parseTree (treeS.length + 1) treeS.toList with
+  | some (t, []) =>
+    let A0 : Abs := if started then .running (inst (flat t) 0) else .unstarted (flat t)
+    let callers := (splitList impl "|").map (fun c => splitList c ",")
+    let all := callers.flatten
+    if all.any (·.startsWith "P") then ("-", s!"fail:panic:a call panicked: {impl.take 100}") else
+    let ns := all.filter (·.startsWith "N:")
+    let (states, exp) := specStates now0 ns.length A0
+    let verdict :=
+      if sortStrs ns != sortStrs exp then
+        let key := if (ns.filter (·.endsWith ":1")).length != (exp.filter (·.endsWith ":1")).length then "exactly-once"
+          else if sortStrs (ns.filter (·.endsWith ":0")) != sortStrs (exp.filter (·.endsWith ":0")) then "finish" else "exactly-once"
+        s!"fail:{key}:Next results {sortStrs ns |>.take 12} are not those of the flat spec {sortStrs exp |>.take 12}"
+      else if callers.any (fun c => decreasing (nTimes now0 c)) then "fail:order:times returned to one caller decrease"
+      else
+        let badL := all.filter (·.startsWith "L:") |>.find? fun l =>
+          match parseAB (l.drop 2).toString with
+          | none => true
+          | some (n, a, b) =>
+            let okRange := (List.range (b - a + 1)).any fun j =>
+              match states[a + j]? with
+              | some A => absLeft A now0 == n ||
+                  -- started on behalf of a `Next` in progress
+                  (match autostart now0 A with | some A' => b > a + j && absLeft A' now0 == n | none => false)
+              | none => false
+            !okRange
+        match badL with
+        | some l => s!"fail:left:{l} is not the flat spec's count (or -1) for any number of draws in its interval"
+        | none => "ok"
+    ("-", verdict)
+  | _ => ("-", "fail:driver:unparsable tree")
 
 def handle : Handler := fun input impl =>
   let kv := parseKV input
   match getS kv "mode" "seq" with
   | "seq" => handleSeq kv impl
   | "conc" => handleConc kv impl
+  | "stress" => handleStress kv impl
   | _ => ("-", "skip:mode")
 
 end Pandora.Drv.C02
